@@ -471,6 +471,7 @@ func init() {
 			{"L2", "from the extracted ParseTokenParam automaton: in every token state a byte is kept only as linear whitespace (through skipLWS), as the configured separator/terminator, as '=' or a quote, or after tokAllowedChar accepted it; a rejected byte returns ErrHdrBadChar in the error state; quoted values are consumed only by SkipQuoted, whose kept set is exact; every whitespace suspension returns the offset before the whitespace", ruleL2},
 			{"L3", "separator/terminator selection: decision table of the prologue over the option bits (sep '&' iff AmpSep|URIHdr else ';'; term '?' iff QmTerm|URIParam, else ',' iff CommaTerm, else none); the wrappers add exactly their documented options", ruleL3},
 			{"L4", "list wrappers count, classify (URIParamResolve, case-insensitive, six names) and accumulate type flags on every completed parameter as unconditional statements", ruleL4},
+			{"L7", "the automaton extracted from ParseTokenParam equals the reviewed reference table (ref/ParseTokenParam.txt): for every state and byte class the next state or exit, the verdict set, the field actions with their arguments (locals other than the scan index abstracted) and the returned offset; a transition that loses an action, changes target, verdict or byte class shows up as a missing and an extra row", func(c *Ctx) { fsmRefRule(c, "L7", "ParseTokenParam") }},
 			{"L6", "stepping back to the separator: where a branch chooses between returning X-1 (the separator before the token just seen) and X with the same verdict, the X arm is taken only when the dominating facts entail X <= offs — the returned offset is the separator whenever the separator lies inside this call's region", ruleL6},
 			{"L5", "buffer exhaustion gives more-bytes in every state without the end-of-input option; with it, every state has a finalisation (open name/value closed, open quote stays more-bytes)", ruleL5},
 		},
